@@ -22,6 +22,8 @@ type verifPipe struct {
 	closes   int
 	opens    int
 	sent     chan struct{} // one token per Flush: the peer has received a request
+	inClosed bool
+	failClose bool
 }
 
 func newVerifPipe() *verifPipe {
@@ -29,6 +31,16 @@ func newVerifPipe() *verifPipe {
 }
 
 func (p *verifPipe) feed(b []byte) { p.in <- b }
+
+// hangUp ends the inbound stream: pending chunks are still read, then Read
+// returns io.EOF (or readErr if set).
+func (p *verifPipe) hangUp(err error) {
+	p.readErr = err
+	if !p.inClosed {
+		p.inClosed = true
+		close(p.in)
+	}
+}
 
 func (p *verifPipe) Read(buf []byte) (int, error) {
 	if len(p.cur) == 0 {
@@ -61,13 +73,32 @@ func (p *verifPipe) Flush(ctx context.Context) error {
 }
 func (p *verifPipe) RemainingBytes() uint64          { return ^uint64(0) }
 func (p *verifPipe) IsOpen() bool                    { return p.open }
-func (p *verifPipe) Close() error                    { p.open = false; p.closes++; return nil }
+func (p *verifPipe) Close() error {
+	p.closes++
+	if p.failClose {
+		return errors.New("verif: close failed")
+	}
+	p.open = false
+	// closing a socket unblocks a pending Read
+	if !p.inClosed {
+		p.inClosed = true
+		close(p.in)
+	}
+	return nil
+}
 func (p *verifPipe) Open() error {
 	p.opens++
 	if p.failOpen {
 		return errors.New("verif: open failed")
 	}
 	p.open = true
+	if p.inClosed {
+		// a new connection
+		p.in = make(chan []byte, 16)
+		p.inClosed = false
+		p.cur = nil
+		p.readErr = nil
+	}
 	return nil
 }
 
